@@ -1,6 +1,7 @@
 package main
 
 import (
+	"strings"
 	"bufio"
 	"encoding/json"
 	"fmt"
@@ -78,7 +79,7 @@ func (c *bridgeClient) Parse(text string) (*interp.ParseResult, error) {
 	if r, ok := c.cache[text]; ok {
 		return r, nil
 	}
-	req, _ := json.Marshal(map[string]string{"text": text})
+	req, _ := json.Marshal(map[string]interface{}{"text": strings.TrimPrefix(text, interp.FillMark), "fill": strings.HasPrefix(text, interp.FillMark)})
 	if _, err := c.in.Write(append(req, '\n')); err != nil {
 		return nil, err
 	}
